@@ -4,6 +4,7 @@ mod chars;
 mod layoutcmd;
 mod matchcmd;
 mod patcmd;
+mod patparsecmd;
 mod utf32cmd;
 
 fn main() {
@@ -17,6 +18,8 @@ fn main() {
         "utf32" => utf32cmd::run(&args[2]),
         "c15-prepare" => patcmd::prepare(&args[2]),
         "c15-run" => patcmd::run(&args[2]),
+        "pattern" => patparsecmd::run(&args[2]),
+        "pattern-seg" => patparsecmd::seg(&args[2]),
         "match" => matchcmd::run(&args[2], args.get(3).map_or(false, |s| s == "fresh")),
         _ => {
             eprintln!("usage: hm dump-std | chars-sweep [limit]");
